@@ -14,7 +14,7 @@ StripAt(n) == IF n # "" /\ Ch(n, 1) = "@" THEN StripAt(Drop(n, 1)) ELSE n
 NormName(n) == IF StripAt(n) = "" THEN "default" ELSE StripAt(n)
 
 (* order of the normalised names used by the bounded instance (code point order) *)
-NameOrder == <<"\"q\"", "B", "a", "b", "default", "x'y", "ä b">>
+NameOrder == <<"\"q\"", "B", "a", "a@", "b", "default", "x'y", "ä b">>
 Rank(n) == CHOOSE i \in 1..Len(NameOrder) : NameOrder[i] = n
 
 Files == <<"f1.klg", "f 2.klg", "q\"3.klg", "ü4.klg">>
